@@ -73,6 +73,9 @@ pub fn build_lattice(bits: u32, macro_payload: bool) -> Spreadsheet {
         // remove the middle sheet, rename the (now second) last one
         b.remove_sheet(1).unwrap();
         b.set_sheet_name(1, "Renamed & Co").unwrap();
+        // ... and add one after the removal (sheet ids / part names must stay unique)
+        b.new_sheet("Added later").unwrap();
+        b.get_sheet_mut(&2).unwrap().get_cell_mut("A1").set_value_string("added");
     }
     if macro_payload {
         b.set_macros_code(vec![0xD0u8, 0xCF, 0x11, 0xE0, 1, 2, 3, 4, 5, 6, 7, 8]);
